@@ -1564,9 +1564,23 @@ ROOT_NAMES = ('r', 'r0', 'ext')
 
 def _roots(env):
   out = []
+  named = [env.get(n) for n in ROOT_NAMES]
   for n in ROOT_NAMES:
     v = env.get(n)
     if isinstance(v, Symbolic) and all(v is not o for _, o in out):
+      if n != 'r' and v.sym_parent is not None:
+        # A history may legitimately move a whole other tree into the tree
+        # under test: reading a list element that is a pg.Ref gives the
+        # referenced value, and writing that value back (`l[0] = l[0]`,
+        # `l[:] = list(l)`, `l.insert(0, l[1])`) stores the referenced root
+        # itself, which the container adopts.  It is then a subtree of the
+        # adopting tree and is checked there, not as a root of its own.
+        top, seen = v, set()
+        while top.sym_parent is not None and id(top) not in seen:
+          seen.add(id(top))
+          top = top.sym_parent
+        if any(top is o for o in named if o is not v):
+          continue
       out.append((n, v))
   return out
 
